@@ -1,6 +1,7 @@
 package props
 
 import (
+	"fmt"
 	"strings"
 	"testing"
 	"time"
@@ -82,8 +83,26 @@ func c03Prop(c *sim.Case) {
 	if sim.Bool(c, "other-cookies") {
 		b.Extra = []string{"theme=dark", "k=a=b"}
 		b.After = []string{"_ga=GA1.2.3"}
+		// sites that keep a few dozen cookies are common; the session cookie is the newest of them
+		for i, n := 0, sim.Tail(c, "other-cookies.n", 1, 45); i < n; i++ {
+			b.Extra = append(b.Extra, fmt.Sprintf("pref%02d=%d", i, i*7))
+		}
 		c.Class("browser:other-cookies")
 	}
+	// other people have logged in through this instance before (their logins are not judged here, but they must not
+	// get in the way of this one, nor this one in theirs)
+	var crowd []*sim.Browser
+	for i, n := 0, sim.Tail(c, "crowd", 1, 30); i < n; i++ {
+		ob := w.NewBrowser(fmt.Sprintf("o%d", i))
+		if lr := ob.Login(target); lr.Err != "" || lr.Final == nil || !lr.Final.OK {
+			c.Violation("crowd-login-broken", "login #%d of another browser before the judged one: %s %v", i+1, lr.Err, lr.Final)
+		}
+		crowd = append(crowd, ob)
+	}
+	if len(crowd) > 0 {
+		c.Class(fmt.Sprintf("crowd:%d+", len(crowd)/8*8))
+	}
+	auth0, call0 := w.IdP.AuthCount(), len(w.IdP.Calls(0))
 	c.Logf("opts: store=%s at=%v logout=%v disc=%v prefix=%q viaServer=%v host=%s cb=%s shape=%+v idttl=%v", o.Store, o.AccessToken, o.Logout, o.Discovery, o.CookiePrefix, o.ViaServer, reqHost, o.CallbackURI, *shape, w.IdP.IDTTL)
 	c.Logf("GET %s", target)
 	c.FP(o.Store, o.AccessToken, o.Logout, o.Discovery, o.CookiePrefix != "", o.ViaServer, reqHost, o.CallbackURI,
@@ -115,10 +134,16 @@ func c03Prop(c *sim.Case) {
 	if !lr.Final.OK {
 		c.Violation("not-ok-after-login"+sigSuffix, "after one pass through the provider the original URL is answered %v, not OK", lr.Final)
 	}
-	if n := w.IdP.AuthCount(); n != 1 {
+	if n := w.IdP.AuthCount() - auth0; n != 1 {
 		c.Violation("extra-authorization-request"+sigSuffix, "provider saw %d authorization requests during one login", n)
 	}
-	calls := w.IdP.Calls(0)
+	for i, ob := range crowd {
+		// inside their token lifetimes (no time has passed) the others are not sent to the provider again either
+		if r := ob.Get(target); !r.OK {
+			c.Violation("crowd-session-lost", "browser #%d that logged in before is answered %v after another login", i+1, r)
+		}
+	}
+	calls := w.IdP.Calls(call0)
 	if len(calls) < 1 || !calls[0].Accepted || calls[0].Grant != "authorization_code" {
 		c.Violation("exchange-count"+sigSuffix, "expected one accepted code exchange first, ledger has %d calls", len(calls))
 	}
@@ -126,7 +151,7 @@ func c03Prop(c *sim.Case) {
 		// the provider's tokens: the most recent ones it issued to this session (a refresh exchange that the
 		// service chooses to make is not forbidden by the statement; it is only classified)
 		idt, at, codeX := "", "", 0
-		for _, tc := range w.IdP.Calls(0) {
+		for _, tc := range w.IdP.Calls(call0) {
 			if !tc.Accepted {
 				c.Violation("rejected-exchange"+sigSuffix, "%s: the provider rejected a token request: %s", what, tc.Reject)
 			}
@@ -205,7 +230,7 @@ func c03Prop(c *sim.Case) {
 			c.Violation(sig+sigSuffix, "request %d inside the token lifetime (remaining budget %v) answered %v", i+1, budget, r)
 		}
 		checkInjected(r, "later OK")
-		if w.IdP.AuthCount() != 1 {
+		if w.IdP.AuthCount()-auth0 != 1 {
 			c.Violation("login-loop"+sigSuffix, "browser was sent to the provider again while its tokens are valid")
 		}
 	}
